@@ -9,6 +9,12 @@
 // "Torn" images additionally truncate the active WAL segment inside the last record at
 // every byte offset (small records) — the torn-tail clause.  "crash" abandons the running
 // engine and continues the history on an engine opened over an image.
+// Images that LIVE ON: a write with torn_crash is the in-flight write of a crash whose WAL
+// record is cut after >= 1 byte; the history continues on the engine reopened over that image
+// (model: DCrashTorn).  A "branch" step reopens an image (plain, or with the previous write's
+// record torn), lets that second engine perform further acknowledged writes / deletes /
+// snapshots, copies ITS directory (second crash), and a third engine reads everything back
+// (model: DBranch); the running engine is not affected.
 package main
 
 import (
@@ -56,8 +62,13 @@ type jstep struct {
 	Lo      int64    `json:"lo,omitempty"`
 	Hi      int64    `json:"hi,omitempty"`
 	Asc     bool     `json:"asc,omitempty"`
-	Torn    bool     `json:"torn,omitempty"`     // write: also take torn-tail images of its WAL record
+	Torn    bool     `json:"torn,omitempty"`     // write: also take torn-tail images of its WAL record; branch: the image is torn
 	TornAll bool     `json:"torn_all,omitempty"` // ... at every byte offset (else 5 offsets; Lo/Hi pick two of them)
+	// write: this write is in flight (never acknowledged to the history) when the process dies with
+	// its WAL record cut after Cut-selected n >= 1 bytes; the history continues on the reopened image
+	TornCrash bool    `json:"torn_crash,omitempty"`
+	Cut       int     `json:"cut,omitempty"` // selects the cut offset inside the record (see pickCut)
+	Sub       []jstep `json:"sub,omitempty"` // branch: what the reopened image engine does before it is crashed again
 	// observations
 	OK     []bool     `json:"impl_ok"` // one flag per model op this step expands to
 	Res    [][2]int64 `json:"impl_res"`
@@ -107,6 +118,32 @@ type eng struct {
 	phase   int // 0 idle, 1 after cache snapshot, 2 after replace, 3 after clear
 	done    chan error
 	release chan struct{}
+	// WAL record of the last write: segment path, offset of the file end before it, bytes added
+	lastSeg    string
+	lastBefore int64
+	lastRec    int
+}
+
+// pickCut maps the selector to a cut offset 1 <= n <= rec-1 inside a record of rec >= 6 bytes:
+// first byte, inside the header, exactly the header, first payload byte, all but the last byte, anywhere.
+func pickCut(sel, rec int) int {
+	n := 1
+	switch sel % 6 {
+	case 1:
+		n = 4
+	case 2:
+		n = 5
+	case 3:
+		n = 6
+	case 4:
+		n = rec - 1
+	case 5:
+		n = 1 + (sel/6)%(rec-1)
+	}
+	if n > rec-1 {
+		n = rec - 1
+	}
+	return n
 }
 
 // ---- hook plumbing: one parked snapshot at a time per process ----
@@ -391,6 +428,103 @@ func (e *eng) image(torn int, segPath string, base int64) (jimage, error) {
 	return jimage{Torn: torn, Res: res}, err
 }
 
+// crashTo abandons the running engine and returns an engine reopened over a copy of its
+// directory; torn >= 1: the record of the last write is cut to torn bytes in the copy.
+func (e *eng) crashTo(st *jstep, torn int) *eng {
+	img, err := os.MkdirTemp("", "verif-c02-crash-")
+	if err == nil {
+		err = copyTree(e.root, img)
+	}
+	if err == nil && torn >= 0 {
+		rel, _ := filepath.Rel(e.root, e.lastSeg)
+		err = os.Truncate(filepath.Join(img, rel), e.lastBefore+int64(torn))
+	}
+	if err != nil {
+		st.Err = err.Error()
+		return nil
+	}
+	hmu.Lock()
+	active = false
+	hmu.Unlock()
+	e.shutdown()
+	os.RemoveAll(e.root)
+	x, err := openEngine(img)
+	st.OK = append(st.OK, err == nil)
+	if err != nil {
+		st.Err = "reopen after crash: " + err.Error()
+		return &eng{root: img}
+	}
+	hmu.Lock()
+	active = true
+	seen = map[string]bool{}
+	hmu.Unlock()
+	return x
+}
+
+// branch: a crash image that lives on.  The running engine e is only copied.
+func (e *eng) branch(st *jstep) {
+	for i := range st.Sub {
+		st.Sub[i].OK, st.Sub[i].Err = nil, ""
+	}
+	img, err := os.MkdirTemp("", "verif-c02-br-")
+	if err == nil {
+		err = copyTree(e.root, img)
+	}
+	if err == nil && st.Torn {
+		if e.lastSeg == "" {
+			err = fmt.Errorf("torn branch without a preceding write")
+		} else {
+			rel, _ := filepath.Rel(e.root, e.lastSeg)
+			err = os.Truncate(filepath.Join(img, rel), e.lastBefore+int64(pickCut(st.Cut, e.lastRec)))
+		}
+	}
+	if err != nil {
+		st.Err = err.Error()
+		os.RemoveAll(img)
+		return
+	}
+	x, err := openEngine(img)
+	if err != nil {
+		st.Err = "branch reopen: " + err.Error()
+		os.RemoveAll(img)
+		return
+	}
+	for i := range st.Sub {
+		sub := &st.Sub[i]
+		switch sub.Op {
+		case "write", "delete", "snap":
+			sub.Torn, sub.TornCrash = false, false
+			x.exec(sub)
+		default:
+			sub.Err = "unsupported branch op " + sub.Op
+		}
+		if sub.Err != "" && st.Err == "" {
+			st.Err = fmt.Sprintf("branch op %d (%s): %s", i, sub.Op, sub.Err)
+		}
+	}
+	img2, err := os.MkdirTemp("", "verif-c02-br2-")
+	if err == nil {
+		err = copyTree(img, img2) // the second crash
+	}
+	x.shutdown()
+	os.RemoveAll(img)
+	if err != nil {
+		if st.Err == "" {
+			st.Err = err.Error()
+		}
+		os.RemoveAll(img2)
+		return
+	}
+	res, err := readImage(img2)
+	if err != nil {
+		if st.Err == "" {
+			st.Err = "branch second reopen: " + err.Error()
+		}
+		return
+	}
+	st.Images = []jimage{{Torn: -1, Res: res}}
+}
+
 func (e *eng) advance(next string) (parked bool, err error) {
 	// release the parked snapshot goroutine and wait for the next park or completion
 	r, c := armPark(next)
@@ -438,12 +572,10 @@ func (e *eng) exec(st *jstep) (crashed *eng) {
 		}
 		var seg string
 		var before int64
-		if st.Torn {
-			if segs := walSegments(e.root); len(segs) > 0 {
-				seg = segs[len(segs)-1]
-				if fi, err := os.Stat(seg); err == nil {
-					before = fi.Size()
-				}
+		if segs := walSegments(e.root); len(segs) > 0 {
+			seg = segs[len(segs)-1]
+			if fi, err := os.Stat(seg); err == nil {
+				before = fi.Size()
 			}
 		}
 		err := e.WritePoints(context.Background(), pts)
@@ -451,25 +583,29 @@ func (e *eng) exec(st *jstep) (crashed *eng) {
 		if fail(err) {
 			return
 		}
+		segs := walSegments(e.root)
+		if len(segs) == 0 {
+			st.Err = "no wal segment after write"
+			return
+		}
+		cur := segs[len(segs)-1]
+		if cur != seg {
+			before = 0 // the write rolled into a new segment
+		}
+		fi, err := os.Stat(cur)
+		if fail(err) {
+			return
+		}
+		rec := int(fi.Size() - before)
+		if rec <= 5 {
+			st.Err = fmt.Sprintf("WAL record of an acknowledged write is only %d bytes (before=%d after=%d)", rec, before, fi.Size())
+			return
+		}
+		e.lastSeg, e.lastBefore, e.lastRec = cur, before, rec
+		if st.TornCrash {
+			return e.crashTo(st, pickCut(st.Cut, rec))
+		}
 		if st.Torn {
-			segs := walSegments(e.root)
-			if len(segs) == 0 {
-				st.Err = "no wal segment after write"
-				return
-			}
-			cur := segs[len(segs)-1]
-			if cur != seg {
-				before = 0 // the write rolled into a new segment
-			}
-			fi, err := os.Stat(cur)
-			if fail(err) {
-				return
-			}
-			rec := int(fi.Size() - before)
-			if rec <= 5 {
-				st.Err = fmt.Sprintf("WAL record of an acknowledged write is only %d bytes (before=%d after=%d)", rec, before, fi.Size())
-				return
-			}
 			offs := []int{}
 			if st.TornAll && rec <= 64 {
 				for n := 0; n < rec; n++ {
@@ -528,29 +664,9 @@ func (e *eng) exec(st *jstep) (crashed *eng) {
 		}
 		st.Images = []jimage{im}
 	case "crash":
-		img, err := os.MkdirTemp("", "verif-c02-crash-")
-		if fail(err) {
-			return
-		}
-		if fail(copyTree(e.root, img)) {
-			return
-		}
-		hmu.Lock()
-		active = false
-		hmu.Unlock()
-		e.shutdown()
-		os.RemoveAll(e.root)
-		x, err := openEngine(img)
-		st.OK = []bool{err == nil}
-		if err != nil {
-			st.Err = "reopen after crash: " + err.Error()
-			return &eng{root: img}
-		}
-		hmu.Lock()
-		active = true
-		seen = map[string]bool{}
-		hmu.Unlock()
-		return x
+		return e.crashTo(st, -1)
+	case "branch":
+		e.branch(st)
 	case "snapbegin": // -> DSnapBegin
 		if e.phase != 0 {
 			st.OK = []bool{false}
@@ -680,57 +796,147 @@ func okAt(st *jstep, i int) string {
 	return "false"
 }
 
+// stepOps: the model operations a step expands to, each with the observed success flag.
+func stepOps(st *jstep) [][2]string {
+	var xs [][2]string
+	op := func(o string, i int) { xs = append(xs, [2]string{o, okAt(st, i)}) }
+	switch st.Op {
+	case "write":
+		if st.TornCrash {
+			// the in-flight write is not part of the history; OK = [write returned, reopen succeeded]
+			op("DCrashTorn", 1)
+		} else {
+			op("DWrite "+points(st.Points), 0)
+		}
+	case "delete":
+		var ks []string
+		for _, s := range st.Series {
+			for f := 0; f < nFields; f++ {
+				ks = append(ks, vh.N(uint64(s*nFields+f)))
+			}
+		}
+		op(fmt.Sprintf("DDelete %s %s %s", vh.List(ks), vh.Z(st.Lo), vh.Z(st.Hi)), 0)
+	case "compact":
+		op(fmt.Sprintf("DCompact %s %s", vh.Nat(st.I), vh.Nat(st.N)), 0)
+	case "crash":
+		op("DCrash", 0)
+	case "snapbegin":
+		op("DSnapBegin", 0)
+	case "commitreplace":
+		op("DCommitReplace", 0)
+	case "commitclear":
+		op("DCommitClear", 0)
+	case "walremove":
+		op("DCommitWalRemove", 0)
+	case "snapfail":
+		op("DSnapFail", 0)
+	case "snap":
+		op("DSnapBegin", 0)
+		op("DCommitReplace", 1)
+		op("DCommitClear", 2)
+		op("DCommitWalRemove", 3)
+	}
+	return xs
+}
+
 func caseTerm(c *jcase) string {
 	var xs []string
-	op := func(o string, st *jstep, i int) { xs = append(xs, fmt.Sprintf("DOp (%s) %s", o, okAt(st, i))) }
 	for i := range c.Steps {
 		st := &c.Steps[i]
+		for _, o := range stepOps(st) {
+			xs = append(xs, fmt.Sprintf("DOp (%s) %s", o[0], o[1]))
+		}
 		switch st.Op {
 		case "write":
-			op("DWrite "+points(st.Points), st, 0)
-			if len(st.Images) > 0 {
+			if len(st.Images) > 0 && !st.TornCrash {
 				ims := make([]string, len(st.Images))
 				for j, im := range st.Images {
 					ims[j] = zzs(im.Res)
 				}
 				xs = append(xs, "DTorn "+vh.List(ims))
 			}
-		case "delete":
-			var ks []string
-			for _, s := range st.Series {
-				for f := 0; f < nFields; f++ {
-					ks = append(ks, vh.N(uint64(s*nFields+f)))
-				}
-			}
-			op(fmt.Sprintf("DDelete %s %s %s", vh.List(ks), vh.Z(st.Lo), vh.Z(st.Hi)), st, 0)
-		case "compact":
-			op(fmt.Sprintf("DCompact %s %s", vh.Nat(st.I), vh.Nat(st.N)), st, 0)
 		case "read":
 			xs = append(xs, fmt.Sprintf("DRead %s %s %s %s %s", vh.N(uint64(st.Key)), vh.Z(st.Lo), vh.Z(st.Hi), vh.Bool(st.Asc), zz(st.Res)))
 		case "image":
 			for _, im := range st.Images {
 				xs = append(xs, "DImage "+zzs(im.Res))
 			}
-		case "crash":
-			op("DCrash", st, 0)
-		case "snapbegin":
-			op("DSnapBegin", st, 0)
-		case "commitreplace":
-			op("DCommitReplace", st, 0)
-		case "commitclear":
-			op("DCommitClear", st, 0)
-		case "walremove":
-			op("DCommitWalRemove", st, 0)
-		case "snapfail":
-			op("DSnapFail", st, 0)
-		case "snap":
-			op("DSnapBegin", st, 0)
-			op("DCommitReplace", st, 1)
-			op("DCommitClear", st, 2)
-			op("DCommitWalRemove", st, 3)
+		case "branch":
+			if len(st.Images) == 1 {
+				var ops []string
+				for j := range st.Sub {
+					for _, o := range stepOps(&st.Sub[j]) {
+						ops = append(ops, vh.Pair(o[0], o[1]))
+					}
+				}
+				xs = append(xs, fmt.Sprintf("DBranch %s %s %s", vh.Bool(st.Torn), vh.List(ops), zzs(st.Images[0].Res)))
+			}
 		}
 	}
 	return vh.List(xs)
+}
+
+// holeSt follows the torn-tail hole through a history (inputs only, no observations):
+// hole: the open WAL segment has a hole; ghost: acknowledged operations are unreachable for
+// replay (behind the hole, or in a snapshot not yet committed through WAL.Remove);
+// sticky: a delete went behind a hole (the snapshot may then be empty, nothing to wait for);
+// shape: a crash observation (crash, image, torn images, branch) was taken while ghost —
+// the shape of known finding torn-wal-tail-hole-loses-later-writes.
+type holeSt struct{ hole, ghost, sticky, shape bool }
+
+func (h *holeSt) apply(st *jstep) {
+	crashObs := func() {
+		if h.ghost {
+			h.shape = true
+		}
+	}
+	switch st.Op {
+	case "write":
+		if st.TornCrash {
+			crashObs()
+			h.hole, h.ghost = true, h.sticky
+			return
+		}
+		if st.Torn {
+			crashObs() // images of the state before this write
+		}
+		if h.hole {
+			h.ghost = true
+		}
+	case "delete":
+		if h.hole {
+			h.ghost, h.sticky = true, true
+		}
+	case "image":
+		crashObs()
+	case "crash":
+		crashObs()
+		h.hole, h.ghost = h.ghost, h.sticky
+	case "branch":
+		crashObs()
+		b := holeSt{hole: st.Torn || h.ghost}
+		for i := range st.Sub {
+			b.apply(&st.Sub[i])
+		}
+		b.apply(&jstep{Op: "crash"})
+		if b.shape {
+			h.shape = true
+		}
+	case "snapbegin":
+		h.hole = false
+	case "snap":
+		h.hole, h.ghost = false, h.sticky
+	case "walremove":
+		h.ghost = h.sticky
+	}
+}
+
+func tornShape(c *jcase) bool {
+	var h holeSt
+	for i := range c.Steps {
+		h.apply(&c.Steps[i])
+	}
+	return h.shape
 }
 
 func runCase(w *vh.W, c *jcase) {
@@ -775,11 +981,22 @@ func runCase(w *vh.W, c *jcase) {
 	}
 	os.RemoveAll(e.root)
 	sig := map[string]string{"f1": "delete-during-pending-snapshot", "f15": "snapshot-retry-drops-wal-of-later-writes"}[c.Kind]
+	if sig == "" && tornShape(c) {
+		sig = "torn-wal-tail-hole-loses-later-writes"
+	}
+	w.Count("torn_shape", fmt.Sprint(sig == "torn-wal-tail-hole-loses-later-writes"))
 	writes, images := 0, 0
 	for _, st := range c.Steps {
 		w.Count("op", st.Op)
 		if st.Op == "write" {
 			writes++
+			if st.TornCrash {
+				w.Count("op", "torn_crash")
+				images++
+			}
+		}
+		if st.Op == "branch" {
+			w.Count("branch", fmt.Sprintf("torn=%v,ops=%d", st.Torn, len(st.Sub)))
 		}
 		images += len(st.Images)
 	}
@@ -799,8 +1016,11 @@ func gen(w *vh.W) jcase {
 		kind = "f1"
 	case x == 1:
 		kind = "f15"
+	case x == 2 || x == 3:
+		kind = "torn" // may run into the torn-tail hole finding; safe never does
 	}
 	c := jcase{Kind: kind}
+	var hs holeSt
 	n := 8 + r.IntN(14)
 	phase := 0
 	failedPending := false // a failed snapshot's store is still pending (f15/f1 kinds only)
@@ -813,15 +1033,46 @@ func gen(w *vh.W) jcase {
 		}
 		return int64(r.IntN(8))
 	}
-	add := func(st jstep) { c.Steps = append(c.Steps, st) }
-	tornBudget := 2
-	for len(c.Steps) < n {
+	// kind=safe never takes a crash observation while acknowledged operations are unreachable
+	// behind a torn-tail hole (hypothesis (c) of the proved theorem); returns false if refused
+	add := func(st jstep) bool {
+		t := hs
+		t.apply(&st)
+		if t.shape && kind != "torn" {
+			return false
+		}
+		hs = t
+		c.Steps = append(c.Steps, st)
+		return true
+	}
+	holes := kind == "safe" || kind == "torn"
+	wpoints := func() []jpoint {
+		var ps []jpoint
+		for i, k := 0, 1+r.IntN(3); i < k; i++ {
+			ps = append(ps, jpoint{Series: r.IntN(nSeries), Field: r.IntN(nFields), T: rt(), V: int64(r.IntN(1000))})
+		}
+		return ps
+	}
+	tornBudget, liveBudget := 2, 3
+	attempts := 0
+	for len(c.Steps) < n && attempts < 400 {
+		attempts++
 		x := r.IntN(100)
 		switch {
 		case x < 34:
-			st := jstep{Op: "write"}
-			for i, k := 0, 1+r.IntN(3); i < k; i++ {
-				st.Points = append(st.Points, jpoint{Series: r.IntN(nSeries), Field: r.IntN(nFields), T: rt(), V: int64(r.IntN(1000))})
+			st := jstep{Op: "write", Points: wpoints()}
+			if holes && liveBudget > 0 && r.IntN(7) == 0 {
+				// in-flight write torn by a crash; the history continues on the reopened image
+				st.TornCrash, st.Cut = true, r.IntN(600)
+				if add(st) {
+					liveBudget--
+					phase = 0
+					failedPending = false
+					if kind == "torn" && r.IntN(2) == 0 {
+						add(jstep{Op: "write", Points: wpoints()})
+					}
+				}
+				continue
 			}
 			if tornBudget > 0 && r.IntN(4) == 0 {
 				st.Torn = true
@@ -878,12 +1129,39 @@ func gen(w *vh.W) jcase {
 			if phase == 0 { // compactions placed between commits only (the driver lists files)
 				add(jstep{Op: "compact", I: r.IntN(3), N: 1 + r.IntN(3), Fast: r.IntN(2) == 0})
 			}
-		case x < 80:
+		case x < 78:
 			add(jstep{Op: "image"})
+		case x < 80:
+			// an image that lives on: plain, or with the previous write's record torn
+			if !holes || liveBudget == 0 {
+				continue
+			}
+			st := jstep{Op: "branch", Cut: r.IntN(600)}
+			if len(c.Steps) > 0 && c.Steps[len(c.Steps)-1].Op == "write" && !c.Steps[len(c.Steps)-1].TornCrash {
+				st.Torn = r.IntN(3) != 0
+			}
+			for i, k := 0, r.IntN(4); i < k; i++ {
+				switch y := r.IntN(10); {
+				case y < 6:
+					st.Sub = append(st.Sub, jstep{Op: "write", Points: wpoints()})
+				case y < 8:
+					st.Sub = append(st.Sub, jstep{Op: "snap"})
+				default:
+					lo, hi := rt(), rt()
+					if lo > hi {
+						lo, hi = hi, lo
+					}
+					st.Sub = append(st.Sub, jstep{Op: "delete", Series: []int{r.IntN(nSeries)}, Lo: lo, Hi: hi})
+				}
+			}
+			if add(st) {
+				liveBudget--
+			}
 		case x < 86:
-			add(jstep{Op: "crash"})
-			phase = 0
-			failedPending = false
+			if add(jstep{Op: "crash"}) {
+				phase = 0
+				failedPending = false
+			}
 		default:
 			lo, hi := int64(r.IntN(10))-1, int64(r.IntN(10))-1
 			if r.IntN(3) == 0 {
@@ -900,6 +1178,8 @@ func corpus() []jcase {
 	wr := func(ps ...jpoint) jstep { return jstep{Op: "write", Points: ps} }
 	wt := func(ps ...jpoint) jstep { return jstep{Op: "write", Points: ps, Torn: true, TornAll: true} }
 	img := jstep{Op: "image"}
+	wc := func(cut int, ps ...jpoint) jstep { return jstep{Op: "write", Points: ps, TornCrash: true, Cut: cut} }
+	br := func(torn bool, cut int, sub ...jstep) jstep { return jstep{Op: "branch", Torn: torn, Cut: cut, Sub: sub} }
 	return []jcase{
 		{Kind: "safe", Steps: []jstep{wt(jpoint{0, 0, 1, 10}), img, {Op: "snapbegin"}, wr(jpoint{0, 0, 1, 11}, jpoint{1, 0, 3, 5}), img, {Op: "commitreplace"}, img, {Op: "commitclear"}, img, {Op: "walremove"}, img,
 			{Op: "crash"}, {Op: "delete", Series: []int{1}, Lo: 0, Hi: 9}, wt(jpoint{0, 0, 2, 12}), {Op: "crash"}, img}},
@@ -907,6 +1187,26 @@ func corpus() []jcase {
 		{Kind: "f15", Steps: []jstep{wr(jpoint{0, 0, 1, 10}), {Op: "snapbegin"}, {Op: "snapfail"}, wr(jpoint{0, 0, 2, 20}), {Op: "snap"}, img}},
 		// F1 across restart: delete inside a pending snapshot is lost after a crash
 		{Kind: "f1", Steps: []jstep{wr(jpoint{0, 0, 5, 7}), {Op: "snapbegin"}, {Op: "delete", Series: []int{0}, Lo: 0, Hi: 10}, {Op: "commitreplace"}, {Op: "commitclear"}, {Op: "walremove"}, img}},
+		// torn-tail hole (findings.d/demos/C02-baseline): write A; write B in flight, torn, crash; write C
+		// acknowledged; crash -> C lost.  The hole survives that crash: D is lost by the next one as well.
+		{Kind: "torn", Steps: []jstep{wr(jpoint{0, 0, 1, 10}), wc(1, jpoint{0, 0, 2, 20}), img, wr(jpoint{0, 0, 3, 30}), img, {Op: "crash"}, img,
+			wr(jpoint{1, 1, 4, 40}), {Op: "crash"}, img}},
+		// the same as side branches of one running engine, cut at the first byte / inside the header / at the
+		// header / in the payload / before the last byte; plain images that live on are fine
+		{Kind: "torn", Steps: []jstep{wr(jpoint{0, 0, 1, 10}), wr(jpoint{0, 0, 2, 20}),
+			br(true, 0, wr(jpoint{0, 0, 3, 30})), br(true, 1, wr(jpoint{0, 0, 3, 30})), br(true, 2, wr(jpoint{0, 0, 3, 30})),
+			br(true, 3, wr(jpoint{0, 0, 3, 30})), br(true, 4, wr(jpoint{0, 0, 3, 30}), wr(jpoint{1, 0, 3, 31})),
+			br(false, 0, wr(jpoint{0, 0, 3, 30})), br(true, 0), img}},
+		// an acknowledged delete behind the hole: the deleted point is back after the second restart
+		{Kind: "torn", Steps: []jstep{wr(jpoint{0, 0, 1, 10}), wc(4, jpoint{0, 0, 2, 20}), {Op: "delete", Series: []int{0}, Lo: 0, Hi: 5}, img}},
+		// the hole in a fresh segment (nothing before it), and closed by a snapshot start before the crash
+		{Kind: "torn", Steps: []jstep{wc(2, jpoint{0, 0, 1, 10}), wr(jpoint{0, 0, 2, 20}), img, {Op: "snap"}, img, wr(jpoint{0, 0, 3, 30}), img, {Op: "crash"}, img}},
+		// safe side of the hole: torn crashes in a row, a torn crash followed by a plain crash (hole gone:
+		// nothing was appended), operations behind the hole made durable by a committed snapshot
+		{Kind: "safe", Steps: []jstep{wr(jpoint{0, 0, 1, 10}), wc(1, jpoint{0, 0, 2, 20}), img, wc(3, jpoint{0, 0, 2, 21}), img, {Op: "crash"}, wr(jpoint{0, 0, 3, 30}), img,
+			wc(5, jpoint{1, 0, 1, 1}), wr(jpoint{0, 0, 4, 40}), wr(jpoint{1, 1, 4, 41}), {Op: "snapbegin"}, wr(jpoint{0, 1, 5, 50}), {Op: "commitreplace"}, {Op: "commitclear"}, {Op: "walremove"}, img, wr(jpoint{1, 1, 6, 61}),
+			br(true, 5, wr(jpoint{0, 0, 6, 60}), jstep{Op: "snap"}, wr(jpoint{0, 0, 7, 70})), br(false, 0, wr(jpoint{0, 0, 6, 60}), jstep{Op: "delete", Series: []int{0}, Lo: 0, Hi: 3}),
+			{Op: "crash"}, img}},
 	}
 }
 
@@ -915,7 +1215,7 @@ func main() {
 	openShared()
 	defer closeShared()
 	w := vh.New("C02", "From Verif Require Import Base.Prelude Model.C01 Model.C02.", "dcase", "Model.C02.check")
-	w.Rule = "random histories (8-22 steps) on a real tsm1.Engine over 2 series x 2 fields x timestamps {0..7, MinNanoTime(+1), MaxNanoTime(-1)}: writes, series range deletes, atomic snapshots, snapshots parked at the hook points after Cache.Snapshot / after Replace / after ClearSnapshot / before completion, failed snapshots (f15/f1 kinds only), CompactFull/Fast+Replace, range reads, crash IMAGES (directory copy reopened by a second engine, all keys read, a write accepted) at any point incl. between commit sub-steps, TORN images cutting the last WAL record at every byte offset (1 in 6 torn writes, records <= 64 bytes) or at 5 offsets (0, inside the header, 5, inside the payload, last byte), and real crash+continue. kind=safe: deletes/snapshot starts only while no commit is in flight (the proved theorem's hypothesis); kind=f1 / f15: the two known-finding shapes. Non-trivial: >=2 writes and >=1 crash image."
+	w.Rule = "random histories (8-22 steps) on a real tsm1.Engine over 2 series x 2 fields x timestamps {0..7, MinNanoTime(+1), MaxNanoTime(-1)}: writes, series range deletes, atomic snapshots, snapshots parked at the hook points after Cache.Snapshot / after Replace / after ClearSnapshot / before completion, failed snapshots (f15/f1 kinds only), CompactFull/Fast+Replace, range reads, crash IMAGES (directory copy reopened by a second engine, all keys read, a write accepted) at any point incl. between commit sub-steps, TORN images cutting the last WAL record at every byte offset (1 in 6 torn writes, records <= 64 bytes) or at 5 offsets (0, inside the header, 5, inside the payload, last byte), and real crash+continue. Images that LIVE ON: (i) torn_crash = an in-flight write whose WAL record is cut after n>=1 bytes (first byte / inside the header / exactly the header / first payload byte / all but the last byte / anywhere) and whose image becomes the running engine (DCrashTorn; up to 3 per case together with (ii)); (ii) branch = a plain image, or one with the previous write's record torn, is reopened by a second engine that performs 0-3 further acknowledged writes / deletes / atomic snapshots, is crashed again (second directory copy) and a third engine reads every key (DBranch). kind=safe: deletes/snapshot starts only while no commit is in flight and no crash observation while acknowledged operations are unreachable behind a torn-tail hole (the proved theorem's hypotheses); kind=f1 / f15 / torn: the three known-finding shapes (torn: decided from the steps by holeSt — a crash observation while operations acknowledged after a torn-tail crash are still behind the hole / not yet committed through WAL.Remove). Non-trivial: >=2 writes and >=1 crash image."
 	var rc jcase
 	if w.ReplayCase(&rc) {
 		runCase(w, &rc)
